@@ -56,6 +56,7 @@ func (w *c02World) evalTC(st *c02Streams, t *c02TC, mut string, honest bool) {
 				}
 			}
 			meta := w.meta("tc", mut, t.term, vi, cache, o)
+			w.warmCompare("tc", cache, o, meta)
 			if !cache && w.grow == nil {
 				ol := c02Run(func() error { return w.long[vi].VerifyTimeoutCert(t.obj) })
 				w.oracle(ol == o, "tc:stateful-verdict", "a long-lived Authority (no cache) answers "+ol+" where a fresh one answers "+o, meta)
